@@ -295,6 +295,14 @@ def decodeOp (j : Json) : M (Op Rat GRat) := do
     | "phase_cycle" => do
       let dm ← dim; let rp ← jNatList (← jField kw "rp")
       pure (.proc (fun d => d.phaseCycle AR dm rp negIpow) obj out)
+    | "fit_popt" => do
+      let dm ← dim
+      let tbl ← (← jArr (← jField kw "table")).mapM (fun e => do
+        match ← jArr e with
+        | [a, b] => pure (← jGList a, ← jGList b)
+        | _ => throw "bad table row")
+      let np ← jNat (← jField kw "np")
+      pure (.proc (fun d => d.fitPopt arangeR dm np (Data.tableFn tbl)) obj out)
     | "ndalign" => do let dm ← dim; pure (.proc (fun d => d.ndalign AR arangeR dm) obj out)
     | "trace_local" => do
       let dm ← dim
@@ -336,6 +344,19 @@ def floatT : Dnp.Window.Transc Float :=
     pi := 3.141592653589793, ofNat := fun n => n.toFloat, half := 0.5, hamA := 0.53836, hamB := 0.46164, c06 := 0.6 }
 
 def ratToFloat (q : Rat) : Float := Float.ofInt q.num / Float.ofNat q.den
+
+def lineshapeJ (j : Json) : M Json := do
+  let kind ← jStr (← jField j "kind")
+  let x ← (← jRatList (← jField j "x")).mapM (fun q => pure (ratToFloat q))
+  let par (k : String) : M Float := do pure (ratToFloat (← jRat (← jField j k)))
+  let x0 ← par "x0"; let wd ← par "width"; let integ ← par "integral"
+  let f ← match kind with
+    | "gaussian" => pure (fun t => Dnp.Lineshape.gaussian floatT t x0 wd integ)
+    | "lorentzian" => pure (fun t => Dnp.Lineshape.lorentzian floatT t x0 wd integ)
+    | "lorentzian_deriv" => pure (fun t => Dnp.Lineshape.lorentzianDeriv floatT t x0 wd integ)
+    | _ => throw s!"unknown lineshape {kind}"
+  pure (Json.mkObj [("outcome", Json.str "ok"),
+    ("bits", Json.arr (x.map (fun t => Json.str (toString (f t).toBits.toNat))).toArray)])
 
 def windowJ (j : Json) : M Json := do
   let kind ← jStr (← jField j "kind")
@@ -527,6 +548,12 @@ partial def loop (h : IO.FS.Stream) (out : IO.FS.Stream) (s : Store) : IO Unit :
     else
     if (j.getObjVal? "op").toOption == some (Json.str "h5") then
       match h5J j with
+      | .ok r => do out.putStrLn (Json.compress r); loop h out s
+      | .error e => do
+        out.putStrLn (Json.compress (Json.mkObj [("outcome", Json.str ("driver-error:" ++ e))])); loop h out s
+    else
+    if (j.getObjVal? "op").toOption == some (Json.str "lineshape") then
+      match lineshapeJ j with
       | .ok r => do out.putStrLn (Json.compress r); loop h out s
       | .error e => do
         out.putStrLn (Json.compress (Json.mkObj [("outcome", Json.str ("driver-error:" ++ e))])); loop h out s
